@@ -2,6 +2,7 @@ package main
 
 import (
 	"fmt"
+	"os"
 	"sort"
 	"strings"
 	"time"
@@ -18,6 +19,19 @@ func init() {
 func sortStrings(s []string) { sort.Strings(s) }
 
 func runC09(c *Ctx) {
+	if f := os.Getenv("VERIF_C09_ONLY"); f != "" { // debugging aid: run one scenario family only
+		switch f {
+		case "stale":
+			c09StaleSenders(c)
+		case "slowhandler":
+			c09SlowHandlers(c)
+		case "secs1":
+			c09SECS1(c)
+		}
+		return
+	}
+	// the generation is replaced while a sender sits between its write and its reply wait (held by the application's trace logger)
+	c09StaleSenders(c)
 	// the generation ends while an application handler still runs: waiters are released by the START of the teardown
 	c09SlowHandlers(c)
 	// the SECS-I transport: sends parked at the hand-off / mid-block / awaiting a reply when the generation ends
@@ -116,7 +130,15 @@ func oracleC09(c *Ctx, sp *rSpec, h *rHistory, replay map[string]any) (string, i
 					c.Violate("property", "cut-call-outcome", fmt.Sprintf("call %d was running when its generation ended and returned %s", i, cl.Outcome), replay)
 				}
 			}
-			if lat := time.Duration(cl.EndT.UnixNano() - h.CloseT[0]); lat > 1500*time.Millisecond {
+			// a call the application itself held (parked in its trace logger) is measured from its release
+			from, bound := h.CloseT[0], 1500*time.Millisecond
+			if h.ReleaseT > from {
+				from = h.ReleaseT
+			}
+			if h.PromptBound > 0 {
+				bound = h.PromptBound
+			}
+			if lat := time.Duration(cl.EndT.UnixNano() - from); lat > bound {
 				c.Violate("property", "waiter-not-released-promptly", fmt.Sprintf("call %d returned %v after its generation was dropped (close timeout 3 s)", i, lat), replay)
 			}
 		}
